@@ -134,7 +134,7 @@ impl<A, C: Clock, F: Filter, R: Rng, S: PtpInstanceStateMutex> Port<'_, InBmca, 
     pub(crate) fn step_announce_age(&mut self, step: Duration) {
         if let Some(mut age) = self.multiport_disable.take() {
             age += step;
-            if age < self.config.announce_interval.as_duration() {
+            if age < self.config.announce_interval.as_duration() * 2 {
                 self.multiport_disable = Some(age)
             }
         }
